@@ -1013,8 +1013,11 @@ def site_parts(el: dict, pipe: str, aspect: str, stepidx: int | None = None) -> 
     if el["kind"] == "hist":
         # what matters for one send of a history: its own kind of call and which kinds of extras earlier calls carried
         k = stepidx or 0
-        earlier = sorted({h for h in el["hist"][:k] if h != "plain"})
-        return aspect + ":history", (pipe, "step=" + el["hist"][k], "earlier=" + ("+".join(earlier) or "none"))
+        parts = aspect.split(":")
+        rel = {"query": "params", "cookie": "cookies", "header": "headers"}.get(parts[1]) if len(parts) > 1 else None
+        if rel:  # the failing component belongs to this call's own extras, or an earlier call carried extras of that kind (a leak)
+            aspect += ":leak" if rel in el["hist"][:k] and el["hist"][k] != rel else ":own"
+        return aspect + ":history", (pipe, "step=" + el["hist"][k])
     if el["kind"] == "body":
         return aspect + ":body", (pipe, el["media"], el["val"]["k"])
     tmpl = URL_TMPL[el["tmpl"]] if el["kind"] == "url" else ("/x/{p}/y" if d["loc"] == "path" else "/x")
